@@ -1,4 +1,6 @@
 """C05 — built transactions conserve value exactly (enforcement path: E5 mustpass + mustflow + E4 must-read + operator scan)."""
+import re
+
 import common
 import facts
 import fieldflow as ff
@@ -251,6 +253,30 @@ def check(rep, F, tier, replay=None):
     arith_unused_rule(rep, F, ["src/builders/", "src/utils.rs"])
     from ruleutil import ord_eq_rule
     ord_eq_rule(rep, F)
+    # KEYED-store: what a sub-builder sums is what it emits
+    rep.rule("KEYED-store", "every sub-builder whose entries are emitted into a key-unique collection (withdrawals / votes maps, input / certificate / proposal sets, one mint entry per policy) stores them in a map keyed by that same key: the value accessors the balance uses (get_total_withdrawals, total_value, deposits, refunds) sum every stored entry, the emitted collection keeps one entry per key - a second add for the same key must replace, not accumulate")
+    KEYED = {
+        "WithdrawalsBuilder": ("withdrawals", "protocol_types::address::RewardAddress"),
+        "TxInputsBuilder": ("inputs", "protocol_types::tx_input::TransactionInput"),
+        "MintBuilder": ("mints", "protocol_types::crypto::macro_implemented_hash_types::ScriptHash"),
+        "CertificatesBuilder": ("certs", "protocol_types::certificates::certificate::Certificate"),
+        "VotingBuilder": ("votes", "protocol_types::governance::voter::Voter"),
+        "VotingProposalBuilder": ("proposals", "protocol_types::governance::proposals::voting_proposal::VotingProposal"),
+    }
+    for b_, (fld_, key_) in sorted(KEYED.items()):
+        adts_ = [a for a in F.adts if a.rsplit("::", 1)[-1] == b_ and "builders::" in a]
+        if len(adts_) != 1:
+            rep.lost("sub-builder %s not found" % b_)
+            continue
+        ty_ = [f["ty"] for f in F.adts[adts_[0]]["variants"][0]["fields"] if f["name"] == fld_]
+        if not ty_:
+            rep.lost("%s.%s not found" % (b_, fld_))
+            continue
+        rep.inst("KEYED-store")
+        if not re.search(r"(Map|Set)<%s[,>]" % re.escape(key_), ty_[0]):
+            rep.violation("KEYED-store", "%s.%s" % (b_, fld_), "%s.%s has type `%s`, not a map keyed by %s: adding the same %s twice keeps both entries, the balance sums both, the emitted collection holds one - the built transaction creates or destroys value" % (b_, fld_, ty_[0][:90], key_.rsplit("::", 1)[-1], key_.rsplit("::", 1)[-1]), {})
+    from ruleutil import value_sub_total_rule
+    value_sub_total_rule(rep, F)
     return rep.finish(
         EXPLANATION,
         ["Value's PartialEq compares lovelace and every asset (treating absent and empty bundles alike) — its algebra is C14's concern",
